@@ -18,6 +18,7 @@ fn main() {
 				"c07" | "c08" => vh::c07_limits::replay(&cases, &mut out),
 				"c13" => vh::c13_registry::replay(&cases, &mut out),
 				"c14" => vh::c14_host_filter::replay(&cases, &mut out),
+				"c15" => vh::c15_wire_types::replay(&cases, &mut out),
 				"c16" => vh::c16_params_seq::replay(&cases, &mut out),
 				m => {
 					eprintln!("unknown module {m}");
